@@ -523,10 +523,7 @@ func emitCase(r *h.Run, sc scenario, o *outcome) {
 		return
 	}
 	if matches(sc.Root, effectivePatterns(sc)) {
-		// whether a pattern that matches the root's own path protects the content is decided by how the patterns are handed
-		// down (defect D11, repaired under C08); the model is compared on the other cases
-		r.Count("root-matches-pattern(oracle only)")
-		return
+		r.Count("root-matches-pattern")
 	}
 	in := &interner{ids: map[string]string{}}
 	cids := map[string]int{}
@@ -735,7 +732,7 @@ func corpus() []scenario {
 	// exclusions at depth, with links around them
 	ex := append(base(), d("tree"), d("tree/a"), d("tree/a/b"), f("tree/a/b/KEEPme", "k"), f("tree/a/b/drop", "d"), l("tree/a/KEEPlink", "outside", false),
 		l("tree/a/b/out", "outside", true), d("tree/KEEPdir"), f("tree/KEEPdir/inner", "i"), l("tree/KEEPdir/lnk", "outside/deep", false), f("tree/z", "z"), l("tree/dang", "void", false))
-	for _, pats := range [][]string{{"KEEP"}, {"KEEP", "drop"}, {"nomatch"}, {""}, {"z", "out"}, {"tree"}} {
+	for _, pats := range [][]string{{"KEEP"}, {"KEEP", "drop"}, {"nomatch"}, {""}, {"z", "out"}, {"tree"}, {"a"}, {"tree", "KEEP"}} {
 		out = append(out, scenario{Entries: ex, Root: "tree", Op: "RemoveWithContextAndExclusionPatterns", Patterns: pats})
 		out = append(out, scenario{Entries: ex, Root: "tree", Op: "CleanDirWithContextAndExclusionPatterns", Patterns: pats})
 		out = append(out, scenario{Entries: ex, Root: "tree/a", Op: "RemoveWithContextAndExclusionPatterns", Patterns: pats})
